@@ -134,8 +134,9 @@ impl Observer for FrameObs {
         if f.name == "std::var::Unset" && f.injected {
             // a failed unset may have removed a prefix of the named variables, nothing else
             for (k, v) in f.vars_before.iter() {
+                let own = own_prefixes().get(&f.name).map(|p| k.starts_with(&format!("{}::", p))).unwrap_or(false);
                 if !f.args.contains(k) && after.get(k) != Some(v) {
-                    core.violate(if k.starts_with("scope::") { "caller-variable-under-scope-prefix-lost" } else { "caller-variable-modified" }, format!("{}: variable {} was {:?}, is {:?}", label, k, v, after.get(k)));
+                    core.violate(if own { "caller-variable-under-scope-prefix-lost" } else { "caller-variable-modified" }, format!("{}: variable {} was {:?}, is {:?}", label, k, v, after.get(k)));
                 }
             }
             for k in after.keys() {
@@ -152,7 +153,8 @@ impl Observer for FrameObs {
             }
             for (k, v) in expected.iter() {
                 if after.get(k) != Some(v) {
-                    let under_prefix = k.starts_with("scope::");
+                    // only a variable under THIS command's own prefix ("scope::<name>::") is the listed finding
+                    let under_prefix = own_prefixes().get(&f.name).map(|p| k.starts_with(&format!("{}::", p))).unwrap_or(false);
                     core.violate(
                         if under_prefix { "caller-variable-under-scope-prefix-lost" } else { "caller-variable-modified" },
                         format!("{}: variable {} was {:?}, is {:?}", label, k, v, after.get(k)),
@@ -199,7 +201,36 @@ fn q(v: &str) -> String {
 
 const VALS: [&str; 10] = ["a", "c d", "", "x#y", "q\"t", "\\${v0}", "handle:zzzzzzzzzzzzzzzzzzzz", "-e", "b", "h\u{e9}"];
 const HANDLES: [&str; 6] = ["${arr}", "${arr2}", "${mp}", "${st}", "nohandle", "${undefinedvar}"];
-const VARNAMES: [&str; 9] = ["v0", "v1", "v2", "nope", "scope::unset::name", "scope::array_contains::index", "scope::join_path::output", "scope::concat::output", "v3"];
+const VARNAMES: [&str; 14] = [
+    "v0", "v1", "v2", "nope", "scope::unset::name", "scope::array_contains::index", "scope::join_path::output", "scope::concat::output", "v3",
+    // names that merely EXTEND a command's scope name (no separator): these are ordinary caller variables
+    "scope::join_path_all::root", "scope::unsetx::name", "scope::concatenate::output", "scope::array_contains2::index", "scope::glob_cpx::target",
+];
+
+/// scope prefix ("scope::<name>") of every script-implemented command, read off the script source in its help
+fn own_prefixes() -> &'static BTreeMap<String, String> {
+    static P: std::sync::OnceLock<BTreeMap<String, String>> = std::sync::OnceLock::new();
+    P.get_or_init(|| {
+        let c = gen::sdk_commands();
+        let mut m = BTreeMap::new();
+        for name in gen::script_command_names() {
+            if let Some(cmd) = c.get(name) {
+                let help = cmd.help();
+                if let Some(i) = help.find("scope::") {
+                    let rest = &help[i + 7..];
+                    if let Some(j) = rest.find("::") {
+                        m.insert(name.clone(), format!("scope::{}", &rest[..j]));
+                    }
+                }
+            }
+        }
+        m
+    })
+}
+
+fn under_some_own_prefix(name: &str) -> bool {
+    own_prefixes().values().any(|p| name.starts_with(&format!("{}::", p)))
+}
 
 fn val(rng: &mut Rng) -> String {
     q(*rng.pick(&VALS))
@@ -283,7 +314,7 @@ fn gen_case(rng: &mut Rng, avoid_scope_names: bool) -> Case {
     let n_vars = 10 + rng.usize(11);
     for i in 0..n_vars {
         let mut name = if i < 4 { format!("v{}", i) } else if rng.chance(1, 4) { rng.pick(&VARNAMES).to_string() } else { format!("w{}", i) };
-        if avoid_scope_names && name.starts_with("scope::") {
+        if avoid_scope_names && under_some_own_prefix(&name) {
             // known finding: a caller variable under a command's own scope prefix is wiped by that command
             name = format!("w{}", i);
         }
@@ -404,14 +435,21 @@ impl Prop for C19 {
         };
         Outcome::collect(verdict, !case.nested.is_empty())
     }
+    fn warm_up(&self) {
+        let _ = own_prefixes();
+    }
     fn known_match(&self, matcher: &str, case: &Value, class: &str, _detail: &str) -> bool {
+        let _ = own_prefixes();
         let case: Case = match serde_json::from_value(case.clone()) {
             Ok(c) => c,
             Err(_) => return false,
         };
         match matcher {
             // the caller context defines a variable under some command's scope prefix AND that is what was lost
-            "caller_variable_named_scope" => class == "caller-variable-under-scope-prefix-lost" && case.program.main.iter().any(|s| matches!(s, Stmt::Raw(l) if l.starts_with("scope::"))),
+            "caller_variable_named_scope" => {
+                class == "caller-variable-under-scope-prefix-lost"
+                    && case.program.main.iter().any(|s| matches!(s, Stmt::Raw(l) if l.starts_with("scope::") && under_some_own_prefix(l.split(' ').next().unwrap_or(""))))
+            }
             _ => false,
         }
     }
